@@ -33,7 +33,13 @@ def _hooks(LOG):
         LOG.append(("symfn", "sf_le", p, q))
         return p <= q
 
-    return dict(build_pred=lambda name, args: Bigger(*args), build_symfn=lambda name, kw: sf_le(**kw))
+    @symbolic_function
+    def sf_half(n):
+        LOG.append(("symfn", "sf_half", n))
+        return n // 2
+
+    return dict(build_pred=lambda name, args: Bigger(*args), build_symfn=lambda name, kw: sf_le(**kw),
+                build_symterm=lambda name, arg: sf_half(arg))
 
 
 class C10(Check):
